@@ -61,6 +61,16 @@ def base_programs(wd, n, rng, harvest=2):
     return out, m
 
 
+def reference_text(data: bytes) -> str:
+    """The text of a file as a reader sees it (independent of the scanner's own reader): UTF-8 if the bytes are UTF-8, else
+    Latin-1; universal newlines."""
+    try:
+        t = data.decode("utf-8")
+    except UnicodeDecodeError:
+        t = data.decode("latin-1")
+    return t.replace("\r\n", "\n").replace("\r", "\n")
+
+
 def decode_like_scanner(data: bytes, wd_file: Path):
     """Bytes -> text through the scanner's own reader (Latin-1 fallback)."""
     wd_file.write_bytes(data)
@@ -95,9 +105,21 @@ def observe_input(arg):
 
     lang, data, table = arg
     if isinstance(data, bytes):
-        data = decode_like_scanner(data, _scratch() / ("in_" + LANGS[lang]["file"]))
-    tokens = lex(lexer_for(lang), data, False)
-    ms = scan_file(tokens, language(lang))
+        # bytes are a FILE: it is analysed the way the scanner analyses a file (its own reading and decoding), and what it
+        # reports is judged against the text a reader sees - UTF-8, else Latin-1, line breaks \n, \r\n and \r
+        from codelimit.common.Scanner import scan_path
+
+        d = _scratch() / "bytes"
+        shutil.rmtree(d, ignore_errors=True)
+        d.mkdir()
+        name = LANGS[lang]["file"]
+        (d / name).write_bytes(data)
+        cb = scan_path(d)
+        ms = cb.files[name].measurements() if name in cb.files else []
+        data = reference_text(data)
+    else:
+        tokens = lex(lexer_for(lang), data, False)
+        ms = scan_file(tokens, language(lang))
     ev = {"meas": [{"name": m.unit_name, "sl": m.start.line, "sc": m.start.column, "el": m.end.line, "ec": m.end.column, "len": m.value} for m in ms]}
     if table and ms:
         lines = data.split("\n")
